@@ -66,6 +66,40 @@ pub fn header_space(shard: usize, nshards: usize, stride: usize, f: &mut dyn FnM
     n
 }
 
+/// `n` strings drawn directly from the header space of `header_space` (for the interpreter tiers,
+/// where enumerating the space just to thin it costs more than the checks themselves).
+pub fn header_space_sample(s: &mut Src, n: usize, f: &mut dyn FnMut(&[u8])) {
+    let mut v = Vec::with_capacity(64);
+    for _ in 0..n {
+        let b0 = if s.chance(2, 3) { 0x80 | s.below(64) as u8 } else { s.u8() };
+        let pt = s.pick(&PTS_OF_INTEREST);
+        let lf = s.below(13) as u16;
+        let len = if s.chance(1, 2) { (4 * (lf as usize + 1)).min(52) } else { s.below(53) };
+        let fill = s.below(4);
+        v.clear();
+        if len >= 1 {
+            v.push(b0);
+        }
+        if len >= 2 {
+            v.push(pt);
+        }
+        if len >= 3 {
+            v.push((lf >> 8) as u8);
+        }
+        if len >= 4 {
+            v.push(lf as u8);
+            fill_body(fill, &mut v, len - 4);
+        }
+        if len >= 8 && b0 & 0x20 != 0 && s.chance(1, 2) {
+            let body = len - 4;
+            let last = s.pick(&[1usize, 3, 4, 8, body.saturating_sub(1), body, body + 1, body + 4, len, 255]);
+            let l = v.len();
+            v[l - 1] = last as u8;
+        }
+        f(&v);
+    }
+}
+
 /// Mutate a (typically valid) packet or compound in place.
 pub fn mutate(s: &mut Src, v: &mut Vec<u8>) {
     let n_ops = s.range(1, 3);
@@ -343,21 +377,27 @@ pub fn sdes_priv_pairs(shard: usize, nshards: usize, f: &mut dyn FnMut(&[u8])) -
             if (l * 256 + p) % nshards != shard {
                 continue;
             }
-            v.clear();
-            v.extend_from_slice(&[0x81, 202, 0, 0, 0x10, 0x20, 0x30, 0x40, 8, l as u8]);
-            for k in 0..l {
-                v.push(if k == 0 { p as u8 } else { b'a' + (k % 23) as u8 });
-            }
-            v.push(0);
-            while v.len() % 4 != 0 {
-                v.push(0);
-            }
-            fix_len(&mut v);
+            sdes_priv_packet(&mut v, l, p);
             f(&v);
             n += 1;
         }
     }
     n
+}
+
+/// One-chunk SDES packet holding a PRIV item with length octet `l` whose first body octet (the
+/// prefix length) is `p`, all `l` body octets present, terminated and filled.
+pub fn sdes_priv_packet(v: &mut Vec<u8>, l: usize, p: usize) {
+    v.clear();
+    v.extend_from_slice(&[0x81, 202, 0, 0, 0x10, 0x20, 0x30, 0x40, 8, l as u8]);
+    for k in 0..l {
+        v.push(if k == 0 { p as u8 } else { b'a' + (k % 23) as u8 });
+    }
+    v.push(0);
+    while v.len() % 4 != 0 {
+        v.push(0);
+    }
+    fix_len(v);
 }
 
 /// (d3) Inputs defined by a relation rather than by one field: datagrams with more than 65 535 tiles,
